@@ -18,8 +18,13 @@ the input with that region"); TOL = 1e-9 * max(1, |coordinates|):
                         union of the pieces equals the intersection.  Exact inside-set: all crossing parameters with polygon
                         edges (rational), sorted; a sub-interval is inside iff its mid point is (exact crossing-number test).
   polygons_by_polyhedron(polygons, polyhedron) -> (pieces, index)
-    requires  convex integer polygons (rectangles, triangles), convex integer polyhedron (cube [0,4]^3, tetrahedron) given by
-              its faces; the polygon's plane is not the plane of a face of the polyhedron (decided exactly).
+    requires  convex integer polygons (rectangles, triangles, parallelograms), convex integer polyhedron given by its faces: cube
+              [0,4]^3, tetrahedron, and the non-cubic box [0,4]x[-2,1]x[2,8] whose sides are given once as six rectangles and once
+              as twelve triangles (two coplanar polygons per side); the polygon's plane is not the plane of a face of the
+              polyhedron (decided exactly).  For the two box descriptions only polygons in GENERAL POSITION are admitted (no vertex
+              in a side plane, outline neither through a polyhedron edge/corner nor through a point of a subdivision line, no
+              polyhedron corner in the polygon's plane; decided exactly); the degenerate placements are enumerated with the cube
+              and the tetrahedron, where they fail on the unchanged tree, (b)-(e) below.
     ensures   (index)   every piece refers to an existing input polygon;
               (inside)  every vertex of a piece lies in the exact intersection polygon (hence in the polyhedron and in the
                         input polygon), distance <= TOL;
@@ -37,6 +42,11 @@ Enumeration
   polygons_by_polyhedron  cube: axis-parallel rectangles in the planes {x,y,z} = 1, 2 (thorough: also 3) with corner coordinates from
                           {-1,0,2,4,5} (thorough {-1,0,1,3,4,5}); tetrahedron: the same rectangles in the planes = 1; seeded integer
                           triangles of [-1,5]^3 for both solids; polygons given one per call and (every 7th) in a batch of three.
+                          box [0,4]x[-2,1]x[2,8] (all six bounds distinct; zmax > ymax), sides as 6 rectangles / as 12 triangles:
+                          axis-parallel rectangles in planes strictly between the bounds with corner coordinates one unit inside /
+                          outside the bounds, seeded integer triangles and parallelograms near the box, general position only.  With
+                          the triangulated sides the clipped outline crosses the subdivision lines (0, 1, 2-4 hanging nodes, part of
+                          the case class); the oracle clips against the six half-spaces and does not know about the subdivision.
 
 Unchanged tree.  lines_by_polygon: holds for every segment against the convex polygons and for all segments against the non-convex
 ones except (a).  polygons_by_polyhedron: holds for EVERY enumerated polygon in generic position (no polygon vertex in a face
@@ -70,6 +80,12 @@ tier; each gave exit 1 with VIOLATION lines whose (obligation, signature) do not
         -> "piece area equals the exact clipped area" (cube/tetrahedron, cut; generic position)
   M6  polygons_by_polyhedron: `orig_poly_ind.append(pi)` -> `append(0)`
         -> both obligations with signature "..., three polygons in one call (each of them passes alone)"
+  M7  polygons_by_polyhedron: hanging-node removal without the `decrease` index compensation (wrong edges merged from the second
+      hanging node on) -> "piece area equals the exact clipped area" and "does not raise" (IndexError) with signature
+      "box 4x3x6 (sides as two triangles), cut; generic position; several hanging nodes"; invisible with one polygon per side
+  M8  polygons_by_polyhedron: bounding-box rejection `np.min(poly[2]) > zmax` -> `> ymax`
+        -> "piece area equals the exact clipped area" / "box 4x3x6, cut; generic position" (and the triangulated box); invisible
+        for the cube and the tetrahedron (ymax == zmax)
 """
 from __future__ import annotations
 
@@ -80,9 +96,13 @@ META = {
     "level": "exploration",
     "engine": "sweep",
     "technique": "run-time contract sweep (bounded stand-in for deduction): integer segments vs catalogue polygons and integer rectangles/"
-                 "triangles vs cube/tetrahedron through the real clipping functions, results compared with exact rational clipping oracles",
+                 "triangles/parallelograms vs cube/tetrahedron/non-cubic box (sides as single and as several coplanar polygons) through the real "
+                 "clipping functions, results compared with exact rational clipping oracles",
     "text": "Tier B only: lines_by_polygon on 7 polygons x all integer segments of [-1,5]^2 (exhaustive for the box), polygons_by_polyhedron on "
-            "axis-parallel integer rectangles (exhaustive over a coordinate set) and seeded integer triangles against a cube and a tetrahedron. "
+            "axis-parallel integer rectangles (exhaustive over a coordinate set) and seeded integer triangles against a cube and a tetrahedron "
+            "(all placements, incl. degenerate ones), and -- polygons in general position only -- against a non-cubic, shifted box whose sides "
+            "are given as six rectangles and as twelve triangles (two coplanar polygons per side; clipped outlines with 0, 1 and several "
+            "hanging nodes). Degenerate placements w.r.t. a polyhedron with subdivided sides are NOT covered. "
             "Non-convex polyhedra and non-convex input polygons of polygons_by_polyhedron are NOT covered (the exact oracle is "
             "Sutherland-Hodgman, valid for convex clipping regions only). No deduction.",
     "note": "exact oracles in fractions.Fraction; returned doubles evaluated exactly, distances compared at 1e-9 relative",
@@ -710,7 +730,7 @@ def sweep_box(rep, pp, quick):
     lo, hi = BOX_LO, BOX_HI
     # corner coordinates per axis: one unit outside / inside either bound (never a bound itself -> no vertex in a face plane)
     cval = [(lo[a] - 1, lo[a] + 1, hi[a] - 1, hi[a] + 1) for a in range(3)]
-    offs = [(1,), (-1,), (3, 7)] if quick else [(1, 2, 3), (-1, 0), (3, 4, 5, 6, 7)]  # planes strictly between the bounds
+    offs = [(1,), (-1,), (3,)] if quick else [(1, 2, 3), (-1, 0), (3, 4, 5, 6, 7)]  # planes strictly between the bounds
     rects = []
     for axis in range(3):
         o = [i for i in range(3) if i != axis]
@@ -724,17 +744,17 @@ def sweep_box(rep, pp, quick):
                         r.append(tuple(q))
                     rects.append(r)
     rng = rep.rng
-    nseed = 70 if quick else 2500
+    nseed = 50 if quick else 2500
     rngs = [range(lo[a] - 1, hi[a] + 2) for a in range(3)]
     with rep.sweep(
         "polygons_by_polyhedron: non-cubic box, sides as one or as several coplanar polygons",
         rule=f"box [{lo[0]},{hi[0]}]x[{lo[1]},{hi[1]}]x[{lo[2]},{hi[2]}] (all six bounds distinct, zmax > ymax, xmax > ymax) with its sides given "
              "(i) as six rectangles, (ii) as twelve triangles (every side split along a diagonal, alternating direction): every axis-parallel "
              f"rectangle in the planes x={offs[0]}, y={offs[1]}, z={offs[2]} with corner coordinates one unit inside/outside the bounds; seeded "
-             "integer triangles and parallelograms (a, a+u, a+u+v, a+v) with vertices within one unit of the box; only polygons in GENERAL "
+             "integer triangles and parallelograms (a, a+u, a+u+v, a+v) near the box without a vertex in a side plane; only polygons in GENERAL "
              "POSITION are admitted (no vertex in a side plane, outline not through a polyhedron edge/corner nor through a point of a "
              "subdivision line, no corner of the polyhedron in the polygon's plane; decided exactly) -- the others are skipped; one polygon "
-             "per call, every 7th additionally in a batch of three; non-trivial = the polygon is cut by the box; for (ii) the number of "
+             "per call, every 10th additionally in a batch of three; non-trivial = the polygon is cut by the box; for (ii) the number of "
              "hanging nodes of the clipped outline (its crossings with the subdivision lines) is part of the case class; distinct by "
              "(solid, polygon)",
         bound=f"2 x ({len(rects)} rectangles + {nseed} seeded triangles/parallelograms)",
@@ -756,6 +776,8 @@ def sweep_box(rep, pp, quick):
                 t = [a, tuple(x + y for x, y in zip(a, u)), tuple(x + y + z for x, y, z in zip(a, u, v)), tuple(x + z for x, z in zip(a, v))]
                 if any(not (rngs[i][0] - 2 <= q[i] <= rngs[i][-1] + 2) for q in t for i in range(3)):
                     continue
+            if any(q[i] in (lo[i], hi[i]) for q in t for i in range(3)):
+                continue  # a vertex in a side plane: never in general position, draw again
             seeded.append(t)
         for solid in GENERAL_POSITION_ONLY:
             planes, faces = SOLIDS[solid]
@@ -768,7 +790,7 @@ def sweep_box(rep, pp, quick):
                 cls = _poly_class(p, planes) + _hang_class(p, solid)
                 sw.case(key=(solid, tuple(p)), nontrivial=cls.startswith("cut"), sample={"solid": solid, "polygon": p, "class": cls})
                 fails = check_polyhedron(pp, solid, [p], "single polygon")
-                if k % 7 == 0:
+                if k % 10 == 0:
                     batch = [polys[j] for j in (k, (k + 1) % len(polys), (k + 5) % len(polys)) if ok[j]]
                     single = [check_polyhedron(pp, solid, [q], "single polygon") for q in batch[1:]]
                     bf = check_polyhedron(pp, solid, batch, "batch")
@@ -788,6 +810,8 @@ def run(rep):
               "fractions.Fraction against the half-spaces defining cube / tetrahedron; exact squared areas and distances")
     rep.assume("requires: integer coordinates; segments overlapping a polygon edge along a positive length and polygons coplanar with a face of the "
                "polyhedron are excluded (open/closed ambiguity of the region); convex input polygons and convex polyhedra only in 3-D",
+               "requires (box with sides as rectangles / as pairs of triangles): polygon in general position w.r.t. the polyhedron and the "
+               "subdivision of its sides, decided exactly; other polygons are skipped for these two solids",
                "returned doubles are evaluated exactly; distances compared at 1e-9 * max(1, |coordinates|)")
     quick = rep.tier == "quick"
     with warnings.catch_warnings():
